@@ -8,7 +8,7 @@ wt="$1"; m="$2"; d="$wt/_mutant/$m"
 export CARGO_NET_OFFLINE=true CARGO_TARGET_DIR="$wt/target"
 cd "$wt" || exit 2
 git checkout -q -- . ; git clean -qfd crates >/dev/null 2>&1
-run_tests() { cargo test -p trippy-core -p trippy-packet --offline 2>&1 | grep -E "^test result|^test .* FAILED|^error" ; }
+run_tests() { cargo test ${CRATES:--p trippy-core -p trippy-packet} --offline 2>&1 | grep -E "^test result|^test .* FAILED|^error" ; }
 git apply "$d/patch.diff" || { echo "RESULT patch-does-not-apply"; exit 1; }
 out=$(run_tests); failed=$(echo "$out" | grep -c "FAILED\|^error")
 echo "[patch only] failures=$failed"; [ "$failed" -ne 0 ] && { echo "$out" | head; echo "RESULT existing-tests-fail-with-patch"; git checkout -q -- .; exit 1; }
